@@ -1,10 +1,11 @@
 (* C02 -- operator precedence, associativity, null and literal folding survive to SQL.
    Only statements here; proofs are in Proofs/.  Tables are Gen/Gen{Pratt,DocPrec,SqlStrength,StdSql,Expand}.v,
    regenerated from /repo on every run. *)
-From Coq Require Import List NArith ZArith Bool.
+From Coq Require Import List NArith ZArith QArith Bool.
 From PV Require Import Lib.ListX Model.Pratt Model.PrqlExpr Proofs.PrattProofs Proofs.PrattNorm Proofs.PrqlProofs
                        Gen.GenPratt Gen.GenDocPrec.
 Import ListNotations.
+Local Close Scope Q_scope.
 
 (* ================= Theta-1, generic (re-exported; C14 instantiates the same theorems) ================= *)
 
@@ -108,4 +109,225 @@ Print Assumptions unary_then_range_then_pratt.
 Example ex_parse_neg_pow_add :
   option_map gser (prql_parse [TU U_Neg; TA 0; TO (PBin B_Pow); TA 1; TO (PBin B_Add); TA 2])
   = Some [1; 5; 1; 4; 2; 0; 0; 0; 0; 1; 0; 2]%nat.
+Proof. vm_compute. reflexivity. Qed.
+
+(* ================= instance 2: SQL emission -> the engine's reading ================= *)
+From PV Require Import Model.Value Model.SqlGrammar Model.SqlTree Model.StaticEval Model.SqlPrint Model.SqlCompat Model.SqlSem
+                       Model.EvalDoc Model.EvalRq Proofs.SqlLaws Proofs.SqlProofs Proofs.EvalProofs Proofs.OpSound
+                       Gen.GenSqlStrength Gen.GenStdSql Gen.GenExpand.
+
+(* ---- table obligations on what the sources say now (Tie A) ---- *)
+
+(* the engine grammar table itself is consistent *)
+Theorem engine_table_ok : table_ok sop suop eprec erassoc euprec EINF sops_all suops_all = true.
+Proof. vm_compute. reflexivity. Qed.
+Print Assumptions engine_table_ok.
+
+(* every template skeleton emitted by the translator renders to exactly the template's text, hole for hole *)
+Theorem templates_are_their_text : forallb template_wf templates = true.
+Proof. vm_compute. reflexivity. Qed.
+Print Assumptions templates_are_their_text.
+
+(* the templates' own structure (e.g. `ABS(x / y) - 0.5`) respects the engine grammar; no template is a bare hole *)
+Theorem sql_tables_ok : tables_ok = true.
+Proof. vm_compute. reflexivity. Qed.
+Print Assumptions sql_tables_ok.
+
+(* the algorithms modelled by hand have, textually, the bodies the models were written against *)
+Theorem modelled_algorithms_unchanged : algorithm_shapes_ok && static_eval_shapes_ok && names_agree = true.
+Proof. vm_compute. reflexivity. Qed.
+Print Assumptions modelled_algorithms_unchanged.
+
+(* sql_compat: whenever the emitter omits parentheses at a (parent, hole, child), the engine regroups to
+   the same tree or to a rotation licensed by a law -- for EVERY triple of the dialect outside the
+   known classes.
+   FULL STATEMENT (false on the unchanged tree):  bad_table d = [].
+   known_triple = F2 (between) + F5 (dishonest templates) + F34 (regexp) + F32 (equality under
+   comparison) + F4 (comparison chain) + F30 (multiply, right operand on the same level). *)
+Theorem sql_compat_sqlite_partial : sql_compat d_sqlite = true.
+Proof. vm_compute. reflexivity. Qed.
+Print Assumptions sql_compat_sqlite_partial.
+Theorem sql_compat_generic_partial : sql_compat d_generic = true.
+Proof. vm_compute. reflexivity. Qed.
+Print Assumptions sql_compat_generic_partial.
+
+Definition mem_triple (t : triple) (l : list triple) : bool :=
+  existsb (fun u => leqb (fst (fst t)) (fst (fst u)) && Nat.eqb (snd (fst t)) (snd (fst u)) && leqb (snd t) (snd u)) l.
+Definition k_lt : str := (k_op ++ [60])%N.
+Definition k_eq : str := (k_op ++ [61])%N.
+Definition k_add : str := (k_op ++ [43])%N.
+Theorem sql_compat_refuted :
+  forallb (fun t => mem_triple t (bad_table d_sqlite))
+    [ (k_add, 0, k_between)%nat      (* F2  (a | in 1..5) + 1  ->  a BETWEEN 1 AND 5 + 1 *);
+      (k_mod, 1, k_div_i)%nat        (* F5  c % (a // b)       ->  c % ROUND(..) * SIGN(a) * SIGN(b) *);
+      (k_lt, 0, k_eq)%nat            (* F32 (a == b) < c       ->  a = b < c *);
+      (k_lt, 1, k_lt)%nat            (* F4  a < (b < c)        ->  a < b < c *);
+      (k_mul, 1, k_mod)%nat          (* F30 a * (b % c)        ->  a * b % c *);
+      (k_lt, 0, k_regex)%nat         (* F34 (a ~= b) < c       ->  a REGEXP b < c *) ] = true
+  /\ mem_triple (k_mul, 1, k_div_f)%nat (bad_table d_generic) = true.   (* F30, generic `/` *)
+Proof. vm_compute. split; reflexivity. Qed.
+Print Assumptions sql_compat_refuted.
+
+(* on the emitter's OWN scale: a template's declared binding_strength is not above the strength the
+   emitter gives to the template's top-level operator (all 12 dialects; string/date templates are out of scope).
+   FULL STATEMENT (false): for every template.  Known: div_i (default and sqlite), math.log. *)
+Definition known_dishonest : list str := [tname_of [] [100;105;118;95;105]; tname_of [115;113;108;105;116;101] [100;105;118;95;105];
+                                          tname_of [] [109;97;116;104;46;108;111;103]]%N.
+Theorem template_strength_honest_partial :
+  forallb (fun t => negb (in_scope_template t) || mem (tname t) known_dishonest || template_honest t) templates = true.
+Proof. vm_compute. reflexivity. Qed.
+Print Assumptions template_strength_honest_partial.
+Theorem template_strength_honest_refuted :
+  forallb (fun n => existsb (fun t => leqb (tname t) n && negb (template_honest t)) templates) known_dishonest = true.
+Proof. vm_compute. reflexivity. Qed.
+Print Assumptions template_strength_honest_refuted.
+
+(* every hole asks for at least what its position in the template text needs.
+   Known: bigquery math.degrees / math.radians (`({column:0} * 180 / PI())`, F35) and the right operand of
+   the infix regex templates (`{text} ~ {pattern}`, `{text} REGEXP {pattern}`). *)
+Definition known_insufficient : list str :=
+  [tname_of [98;105;103;113;117;101;114;121] [109;97;116;104;46;100;101;103;114;101;101;115];
+   tname_of [98;105;103;113;117;101;114;121] [109;97;116;104;46;114;97;100;105;97;110;115];
+   tname_of [112;111;115;116;103;114;101;115] [114;101;103;101;120;95;115;101;97;114;99;104];
+   tname_of [103;108;97;114;101;100;98] [114;101;103;101;120;95;115;101;97;114;99;104];
+   tname_of [115;113;108;105;116;101] [114;101;103;101;120;95;115;101;97;114;99;104]]%N.
+Theorem hole_strength_sufficient_partial :
+  forallb (fun t => negb (in_scope_template t) || mem (tname t) known_insufficient || template_holes_sufficient t) templates = true.
+Proof. vm_compute. reflexivity. Qed.
+Print Assumptions hole_strength_sufficient_partial.
+Theorem hole_strength_sufficient_refuted :
+  forallb (fun n => existsb (fun t => leqb (tname t) n && negb (template_holes_sufficient t)) templates) known_insufficient = true.
+Proof. vm_compute. reflexivity. Qed.
+Print Assumptions hole_strength_sufficient_refuted.
+
+(* ---- the theorems over ALL expressions ---- *)
+
+(* sql_print_parse_roundtrip: for a PRQL expression of any depth, if none of the (parent, hole, child)
+   triples of its RQ form is structurally bad, the emitted tokens are read by the engine as the emitter's
+   tree up to the rotations of dnorm.  (By sql_compat_*_partial a triple can only be bad inside a known class.) *)
+Theorem sql_print_parse_roundtrip :
+  forall (dialect : str) (e : pexpr) (p : nat * sdexpr),
+  sql_tree dialect e = Some p ->
+  (forall tv, In tv (tree_triples dialect (rsize (rq_of e)) (rq_of e)) -> struct_ok (snd tv) = true) ->
+  exists fuel, eparse fuel 0 (tokens_of p)
+               = Some (erase (Pratt.dnorm sop suop satom sfn eprec erassoc euprec EINF (snd p)), []).
+Proof. exact (fun d e p => sql_roundtrip d e p sql_tables_ok). Qed.
+Print Assumptions sql_print_parse_roundtrip.
+
+(* the laws behind the licensed rotations, in SQLite's semantics, for all values incl. NULL and text *)
+Theorem reassoc_laws : forall q, pair_in q reassoc_ok = true -> rot_ok sop sv sql_ev q.
+Proof. exact reassoc_ok_sound. Qed.
+Print Assumptions reassoc_laws.
+
+(* syntax + values: what SQLite computes from the emitted text is what the emitter's tree means *)
+Theorem sql_engine_reads_intended :
+  forall (dialect : str) (e : pexpr) (p : nat * sdexpr),
+  sql_tree dialect e = Some p ->
+  (forall tv, In tv (tree_triples dialect (rsize (rq_of e)) (rq_of e)) -> verdict_ok (snd tv) = true) ->
+  (forall q, In q (Pratt.rot_pairs sop suop satom sfn eprec erassoc euprec EINF (snd p)) -> pair_in q reassoc_ok = true) ->
+  exists fuel r, eparse fuel 0 (tokens_of p) = Some (r, []) /\ forall env, eval_sv env r = eval_sv env (erase (snd p)).
+Proof. exact (fun d e p => SqlProofs.sql_engine_reads_intended d e p sql_tables_ok). Qed.
+Print Assumptions sql_engine_reads_intended.
+
+(* the text layer under Theta-1 is NOT safe: two tokens can fuse (F3) *)
+Theorem adjacency_unsafe_neg_neg :
+  sql_text d_sqlite (PUnE U_Neg (PUnE U_Neg (PCol 0))) = Some [45; 45; 97]%N.   (* "--a": an SQL comment *)
+Proof. vm_compute. reflexivity. Qed.
+Print Assumptions adjacency_unsafe_neg_neg.
+
+(* ================= the front half: ast_expand and static_eval ================= *)
+
+(* operators become std function calls without changing the documented meaning; `**` swaps its operands
+   (math.pow exponent base) and the templates swap them back *)
+Theorem expand_sound : forall env e, eval_r env (expand e) = eval_doc env e.
+Proof. exact EvalProofs.expand_sound. Qed.
+Print Assumptions expand_sound.
+
+(* compile-time simplification never changes the value.
+   FULL STATEMENT (not demanded, DESIGN.md C02): without the hypothesis.  no_corner excludes `==`/`!=`/in-range
+   operands that are not the literal null but are folded to it (e.g. (null ?? null) == a): either reading
+   of "comparison with the literal null" can be defended there. *)
+Theorem static_eval_sound : forall env r, no_corner r = true -> eval_r env (seval r) = eval_r env r.
+Proof. exact EvalProofs.static_eval_sound. Qed.
+Print Assumptions static_eval_sound.
+Theorem static_eval_corner_refuted :
+  exists env r, no_corner r = false /\ eval_r env (seval r) <> eval_r env r.
+Proof.
+  exists [VInt 1%Z], (ROp n_eq [ROp n_coalesce [RLit LNull; RLit LNull]; RCol 0]).
+  split; [vm_compute; reflexivity|vm_compute; discriminate].
+Qed.
+Print Assumptions static_eval_corner_refuted.
+
+Theorem resolve_sound : forall env e, no_corner (expand e) = true -> eval_r env (resolve e) = eval_doc env e.
+Proof. exact EvalProofs.resolve_sound. Qed.
+Print Assumptions resolve_sound.
+
+(* ================= operator by operator, executable dialects ================= *)
+Theorem div_f_real_sqlite : forall x y, is_num x -> is_num y ->
+  sql_value d_sqlite (PBinE B_DivFloat a_ b_) [x; y] = eval_doc [x; y] (PBinE B_DivFloat a_ b_).
+Proof. exact OpSound.div_f_real_sqlite. Qed.
+Print Assumptions div_f_real_sqlite.
+
+(* FULL STATEMENT (false, F16): the same for d_generic *)
+Theorem div_f_real_generic_refuted : exists x y, is_num x /\ is_num y /\
+  sql_value d_generic (PBinE B_DivFloat a_ b_) [x; y] <> eval_doc [x; y] (PBinE B_DivFloat a_ b_).
+Proof. exact OpSound.div_f_real_generic_refuted. Qed.
+Print Assumptions div_f_real_generic_refuted.
+Theorem div_f_real_generic_partial : forall x y, is_num x -> is_num y -> is_int x && is_int y = false ->
+  sql_value d_generic (PBinE B_DivFloat a_ b_) [x; y] = eval_doc [x; y] (PBinE B_DivFloat a_ b_).
+Proof. exact OpSound.div_f_real_generic_partial. Qed.
+Print Assumptions div_f_real_generic_partial.
+
+Theorem div_i_trunc_generic : forall x y, is_int x && is_int y = true ->
+  sql_value d_generic (PBinE B_DivInt a_ b_) [x; y] = eval_doc [x; y] (PBinE B_DivInt a_ b_).
+Proof. exact OpSound.div_i_trunc_generic. Qed.
+Print Assumptions div_i_trunc_generic.
+
+(* FULL STATEMENT (false, F1): sql_value d_sqlite (a // b) [VInt a; VInt b] = VInt (Z.quot a b) for b <> 0 *)
+Theorem div_i_trunc_sqlite_refuted : exists x y, is_int x && is_int y = true /\
+  sql_value d_sqlite (PBinE B_DivInt a_ b_) [x; y] = Some (VRat (Qmake (-1)%Z 1%positive)) /\
+  eval_doc [x; y] (PBinE B_DivInt a_ b_) = Some (VInt 0%Z).
+Proof. exact OpSound.div_i_trunc_sqlite_refuted. Qed.
+Print Assumptions div_i_trunc_sqlite_refuted.
+Theorem div_i_trunc_sqlite_partial : forall a b : Z, b <> 0%Z -> (Z.abs b <= Z.abs a)%Z ->
+  exists r, sql_value d_sqlite (PBinE B_DivInt a_ b_) [VInt a; VInt b] = Some (VRat r) /\ (r == inject_Z (Z.quot a b))%Q.
+Proof. exact OpSound.div_i_trunc_sqlite_partial. Qed.
+Print Assumptions div_i_trunc_sqlite_partial.
+
+Theorem mod_sound : forall d x y, d = d_sqlite \/ d = d_generic -> is_int x && is_int y = true ->
+  sql_value d (PBinE B_Mod a_ b_) [x; y] = eval_doc [x; y] (PBinE B_Mod a_ b_).
+Proof. exact OpSound.mod_sound. Qed.
+Print Assumptions mod_sound.
+
+Theorem is_null_sound : forall d x, d = d_sqlite \/ d = d_generic ->
+  sql_value d (PBinE B_Eq a_ (PLit LNull)) [x] = eval_doc [x] (PBinE B_Eq a_ (PLit LNull)) /\
+  sql_value d (PBinE B_Ne a_ (PLit LNull)) [x] = eval_doc [x] (PBinE B_Ne a_ (PLit LNull)) /\
+  sql_value d (PBinE B_Eq (PLit LNull) a_) [x] = eval_doc [x] (PBinE B_Eq (PLit LNull) a_).
+Proof. exact OpSound.is_null_sound. Qed.
+Print Assumptions is_null_sound.
+
+Theorem coalesce_sound : forall d x y, d = d_sqlite \/ d = d_generic ->
+  sql_value d (PBinE B_Coalesce a_ b_) [x; y] = eval_doc [x; y] (PBinE B_Coalesce a_ b_).
+Proof. exact OpSound.coalesce_sound. Qed.
+Print Assumptions coalesce_sound.
+
+Theorem between_sound : forall d x y z, d = d_sqlite \/ d = d_generic ->
+  sql_value d (PIn a_ (Some b_) (Some c_)) [x; y; z] = eval_doc [x; y; z] (PIn a_ (Some b_) (Some c_)) /\
+  sql_value d (PIn a_ (Some b_) None) [x; y; z] = eval_doc [x; y; z] (PIn a_ (Some b_) None) /\
+  sql_value d (PIn a_ None (Some c_)) [x; y; z] = eval_doc [x; y; z] (PIn a_ None (Some c_)).
+Proof. exact OpSound.between_sound. Qed.
+Print Assumptions between_sound.
+
+Theorem case_else_sound : forall d x y z, d = d_sqlite \/ d = d_generic ->
+  sql_value d (PCase [(a_, b_); (PLit (LBool true), c_)]) [x; y; z] = eval_doc [x; y; z] (PCase [(a_, b_); (PLit (LBool true), c_)]) /\
+  sql_value d (PCase [(a_, b_)]) [x; y; z] = eval_doc [x; y; z] (PCase [(a_, b_)]).
+Proof. exact OpSound.case_else_sound. Qed.
+Print Assumptions case_else_sound.
+
+(* non-vacuity of the hypotheses *)
+Example ex_roundtrip_hyp_satisfiable :
+  forallb (fun tv => verdict_ok (snd tv))
+          (tree_triples d_sqlite 20 (rq_of (PBinE B_Add (PCol 0) (PBinE B_Mul (PCol 1) (PBinE B_Sub (PCol 2) (PCol 0)))))) = true.
+Proof. vm_compute. reflexivity. Qed.
+Example ex_no_corner : no_corner (expand (PBinE B_Eq (PBinE B_Coalesce (PCol 0) (PLit LNull)) (PLit LNull))) = true.
 Proof. vm_compute. reflexivity. Qed.
